@@ -11,7 +11,8 @@ TECHNIQUE = "mixin-in-isolation deductive proofs (pyvc, z3) + bounded run-time c
 RULE = _rtc.RTC_RULE
 M = "vf.contracts.mixins"
 FUNCTIONS = ["SatCacheMixin." + m for m in ["satisfiable", "check_satisfiability", "eval", "batch_eval", "min", "max", "solution", "unsat_core", "simplify", "_add"]] + \
-            ["ModelCacheMixin." + m for m in ["min", "max", "eval", "batch_eval", "solution", "satisfiable", "_add", "_get_models", "_get_solutions", "_model_hook"]]
+            ["ModelCacheMixin." + m for m in ["min", "max", "eval", "batch_eval", "solution", "satisfiable", "_add", "_get_models", "_get_solutions", "_model_hook"]] + \
+            ["BackendZ3._extrema", "BackendZ3._batch_eval"]
 TRUSTED = _rtc.RTC_TRUSTED + ["contract of the stack below each mixin (vf/contracts/mixins.py: Spec, MSpec), incl. BackendZ3._extrema's model-callback behaviour",
                                "contract of ModelCache.eval_ast (value of the expression under the cached model)"]
 ASSUMPTIONS = ["mixins are parametric in the constraint language: proofs are over a universe of 8 (SatCache) / 4 (ModelCache) assignments and 2-bit values",
@@ -23,4 +24,7 @@ def tasks(tier, seed=0):
     from vf.contracts import mixins
     out = [task(M, "ob_satcache", f"mixin.SatCacheMixin.{m}/spec+inv", ["C11", "C16"], method=m, tier=tier) for m in mixins.QUERY]
     out += [task(M, "ob_modelcache", f"mixin.ModelCacheMixin.{m}/spec+inv", ["C11"], method=m, tier=tier) for m in mixins.MC_METHODS]
+    Z = "vf.contracts.z3solve"
+    out += [task(Z, "ob_batch_eval", "z3solve._batch_eval/state-restored+results", ["C17", "C14", "C11"], tier=tier),
+            task(Z, "ob_extrema", "z3solve._extrema/true-optimum", ["C11", "C17"], tier=tier)]
     return out + _rtc.rtc_tasks("C11", tier, seed)
